@@ -1,12 +1,12 @@
 (* GENERATED on every run by harness/props/c12_gen.py from the Python source - do not edit.
-   engine/control.py sha256 8f44bc476f1affbd, engine/__init__.py sha256 c6771931763c4beb *)
+   engine/control.py sha256 40a50eb3954ca617, engine/__init__.py sha256 c6771931763c4beb *)
 From Coq Require Import Arith Bool.
 From Verif Require Import C11.Model_C11.
 
 Definition gen_count_failure (max_failures : option nat) (_failures_counter : nat) (has_reached_the_failure_limit : bool) :=
   let '(_failures_counter, has_reached_the_failure_limit) := (match max_failures with
   | Some max_failures_v => let _failures_counter := (_failures_counter + 1) in
-  let '(_failures_counter, has_reached_the_failure_limit) := (if (Nat.ltb max_failures_v _failures_counter) then let has_reached_the_failure_limit := true in
+  let '(_failures_counter, has_reached_the_failure_limit) := (if (Nat.leb max_failures_v _failures_counter) then let has_reached_the_failure_limit := true in
   (_failures_counter, has_reached_the_failure_limit) else (_failures_counter, has_reached_the_failure_limit)) in
   (_failures_counter, has_reached_the_failure_limit)
   | None => (_failures_counter, has_reached_the_failure_limit)
